@@ -294,9 +294,25 @@ impl AiReply {
 // ---------------------------------------------------------------------------------------------
 // Rendering
 
+/// The key that decides how a file is *written* (comment leader, wrapper): its last extension,
+/// except that `go.mod` / `go.sum` / `go.work` — and look-alikes such as `legacy.mod`, which
+/// blockwatch must skip — are written like Go files.
+pub fn lang_key(path: &str) -> &str {
+    let name = path.rsplit('/').next().unwrap_or(path);
+    let ext = name.rsplit('.').next().unwrap_or("");
+    match ext {
+        "mod" | "sum" | "work" => "go",
+        other => other,
+    }
+}
+
+pub fn is_wrapped(path: &str) -> bool {
+    wrapper_for(path).is_some()
+}
+
 /// Comment leader for a path (by extension). Only languages the generators use are listed.
 pub fn comment_leader(path: &str) -> &'static str {
-    let ext = path.rsplit('.').next().unwrap_or("");
+    let ext = lang_key(path);
     match ext {
         "rs" | "js" | "go" | "ts" | "java" | "c" | "cpp" | "swift" | "kt" | "cs" | "php" => "//",
         _ => "#",
@@ -305,7 +321,7 @@ pub fn comment_leader(path: &str) -> &'static str {
 
 /// Languages whose content lines must sit inside an array literal to be valid syntax.
 fn wrapper_for(path: &str) -> Option<(&'static str, &'static str)> {
-    let ext = path.rsplit('.').next().unwrap_or("");
+    let ext = lang_key(path);
     match ext {
         "rs" => Some(("const ITEMS: &[&str] = &[", "];")),
         "js" | "ts" => Some(("const items = [", "];")),
